@@ -88,6 +88,7 @@ Section Ops.
   Hypothesis H_NB : 0 < c_NB c.
   Hypothesis H_MAXREF : 1 <= c_MAXREF c.
   Hypothesis H_nb : forall k s, 0 <= new_bucket k s < c_NB c.
+  Set Default Proof Using "All".
 
   Notation tslot := (tslot tried_bucket bucket_pos).
   Notation nslot := (nslot new_bucket bucket_pos).
@@ -101,7 +102,7 @@ Section Ops.
   Proof. intros E1 E2 [A B C]. constructor; rewrite ?E1, ?E2; auto. Qed.
   Lemma Cnt_frame L s s' : s_info s' = s_info s -> s_nnew s' = s_nnew s -> s_ntried s' = s_ntried s -> s_netcnt s' = s_netcnt s ->
     Cnt L s -> Cnt L s'.
-  Proof. intros E1 E2 E3 E4 [A B C]. constructor; rewrite ?E1, ?E2, ?E3, ?E4; auto. Qed.
+  Proof. intros E1 E2 E3 E4 [A0 A B C]. constructor; rewrite ?E1, ?E2, ?E3, ?E4; auto. Qed.
   Lemma R_frame X s s' : s_info s' = s_info s -> RInv X s -> RInv X s'.
   Proof. unfold RInv. intros E H. rewrite E. auto. Qed.
 
@@ -117,7 +118,8 @@ Section Ops.
 
   Lemma Cnt_upd L s id a a' : zfind id (s_info s) = Some a -> a_key a' = a_key a -> a_tried a' = a_tried a ->
     Cnt L s -> Cnt L (set_info (zset id a' (s_info s)) s).
-  Proof. intros F E1 E2 [A B C]. constructor; simpl.
+  Proof. intros F E1 E2 [A0 A B C]. constructor; simpl.
+    - auto.
     - rewrite A, (z_count_set_old _ id a' a) by auto. unfold is_new; simpl. rewrite E2. lia.
     - rewrite B, (z_count_set_old _ id a' a) by auto. unfold is_tried; simpl. rewrite E2. lia.
     - intros net. rewrite C, !(z_count_set_old _ id a' a) by auto. unfold is_new, is_tried, on_net; simpl. rewrite E1, E2. f_equal; lia.
@@ -171,7 +173,7 @@ Section Ops.
     zlen (s_info s') <= IDLIM ->
     Cnt L s -> Cnt L' s'.
   Proof.
-    intros ND HL K1 K2 EI Edn Edt EN ET ENC LEN [A B C].
+    intros ND HL K1 K2 EI Edn Edt EN ET ENC LEN [A0 A B C].
     assert (HN : forall k0 v, k0 <> id -> is_new L' (k0, v) = is_new L (k0, v)).
     { intros k0 v N. unfold is_new; simpl. rewrite HL; auto. }
     assert (P1 : mcount (is_new L') (s_info s') = s_nnew s + dn).
@@ -191,7 +193,7 @@ Section Ops.
       rewrite C. simpl. rewrite Edt. unfold ob2z.
       destruct o as [a'|]; destruct (zfind id (s_info s)) as [a|] eqn:F; rewrite ?b2z_andb; unfold on_net; simpl;
         rewrite ?(K1 _ eq_refl), ?(K2 _ eq_refl); lia. }
-    constructor; [lia | lia |].
+    constructor; [rewrite ENC; destruct ((dn =? 0) && (dt =? 0)); [auto | apply z_NoDup_set; auto] | lia | lia |].
     intros net. rewrite ENC. destruct ((dn =? 0) && (dt =? 0)) eqn:Z0.
     - apply andb_true_iff in Z0. destruct Z0 as [Z1 Z2]. apply Z.eqb_eq in Z1, Z2.
       rewrite P3, P4, Z1, Z2. destruct (nc_get (s_netcnt s) net); simpl. f_equal; lia.
